@@ -173,11 +173,14 @@ func bVote(v wVote) *protocol.ViewChangeMessageContentBuilder {
 }
 
 // buildRaw goes through the typed messages of services/interfaces and CreateConsensusRawMessage, as the node does
-func buildRaw(m *wMsg) *interfaces.ConsensusRawMessage {
+func buildRaw(m *wMsg) *interfaces.ConsensusRawMessage { return buildRawB(m, nil) }
+
+// buildRawB: the same with a block attached where the kind carries one (PREPREPARE, VIEW_CHANGE, NEW_VIEW)
+func buildRawB(m *wMsg, blk interfaces.Block) *interfaces.ConsensusRawMessage {
 	switch m.Kind {
 	case "PP":
 		c := (&protocol.PreprepareContentBuilder{SignedHeader: bRef(m.Ref), Sender: bSig(m.Snd)}).Build()
-		return interfaces.NewPreprepareMessage(c, nil).ToConsensusRawMessage()
+		return interfaces.NewPreprepareMessage(c, blk).ToConsensusRawMessage()
 	case "P":
 		c := (&protocol.PrepareContentBuilder{SignedHeader: bRef(m.Ref), Sender: bSig(m.Snd)}).Build()
 		return interfaces.NewPrepareMessage(c).ToConsensusRawMessage()
@@ -185,14 +188,14 @@ func buildRaw(m *wMsg) *interfaces.ConsensusRawMessage {
 		c := (&protocol.CommitContentBuilder{SignedHeader: bRef(m.Ref), Sender: bSig(m.Snd), Share: m.Share}).Build()
 		return interfaces.NewCommitMessage(c).ToConsensusRawMessage()
 	case "VC":
-		return interfaces.NewViewChangeMessage(bVote(*m.Vote).Build(), nil).ToConsensusRawMessage()
+		return interfaces.NewViewChangeMessage(bVote(*m.Vote).Build(), blk).ToConsensusRawMessage()
 	}
 	h := &protocol.NewViewHeaderBuilder{MessageType: protocol.MessageType(m.Type), InstanceId: primitives.InstanceId(m.Inst), BlockHeight: primitives.BlockHeight(m.Height), View: primitives.View(m.View)}
 	for _, v := range m.Votes {
 		h.ViewChangeConfirmations = append(h.ViewChangeConfirmations, bVote(v))
 	}
 	c := (&protocol.NewViewMessageContentBuilder{SignedHeader: h, Sender: bSig(m.Snd), Message: &protocol.PreprepareContentBuilder{SignedHeader: bRef(m.Ref), Sender: bSig(m.PPSnd)}}).Build()
-	return interfaces.NewNewViewMessage(c, nil).ToConsensusRawMessage()
+	return interfaces.NewNewViewMessage(c, blk).ToConsensusRawMessage()
 }
 
 func cp(b []byte) []byte { return append([]byte{}, b...) }
@@ -291,6 +294,24 @@ func runWire(cfg *runCfg) error {
 		}
 		if dec.coq() != m.coq() {
 			rep.finding("C20", "round-trip-changes-a-field", fmt.Sprintf("%s built %s read %s", m.Kind, clip([]string{m.coq()}), clip([]string{dec.coq()})), m.coq())
+		}
+		// the block travels beside the content: what was attached comes back, for every shape of the content
+		if m.Kind == "PP" || m.Kind == "VC" || m.Kind == "NV" {
+			blk := &vblock{height: 3, id: uint64(7000 + i)}
+			back := interfaces.ToConsensusMessage(buildRawB(m, blk))
+			var got interfaces.Block
+			switch x := back.(type) {
+			case *interfaces.PreprepareMessage:
+				got = x.Block()
+			case *interfaces.ViewChangeMessage:
+				got = x.Block()
+			case *interfaces.NewViewMessage:
+				got = x.Block()
+			}
+			if got != interfaces.Block(blk) {
+				rep.finding("C20", "block-lost-in-round-trip", fmt.Sprintf("%s built with a block attached, read back with block %v", m.Kind, got), m.coq())
+			}
+			rep.count("built-with-block:" + m.Kind)
 		}
 		// every signature that verified before still verifies over the re-read bytes: the signed bytes are the nested
 		// header's Raw(); sign the standalone encoding, verify over the nested slice
